@@ -138,6 +138,23 @@ CLAIMED = {
                   "correct searches.",
              note="Trusted: env/memfs.py kill semantics (buffer lost before close, rename atomic), env/aio.py. Index below the "
                   "8 KiB buffer size; partial flushes of a large index are outside.", ref="3/C13"),
+ "C04": dict(cat="other", tech="non-interference (2-safety) by bounded symbolic execution (CrossHair/z3) of the real setup/token code under ideal primitives",
+             text="Two databases of the same shape with independent symbolic identifier bytes and different keywords are set up with "
+                  "the same coin stream and the resulting index and serialized tokens must be equal, so any leaf that depends on an "
+                  "identifier or keyword is found by z3; the same database under two keys on one continuing oracle may not repeat a "
+                  "label or token field (labels are keyed); and from the coin log every encryption used its own fresh "
+                  "os.urandom(16) as IV = ciphertext prefix, disjoint between two setups. Each counterexample is confirmed by the "
+                  "property's literal byte-substring statement with the real primitives.",
+             note=_PIPE_NOTE + " Secrecy of AES/HMAC themselves is outside.", ref="3/C04"),
+ "C06": dict(cat="other", tech="bounded symbolic execution (CrossHair/z3): solver-chosen keyword permutation with real HMAC labels; adversarial (solver-chosen) random source with recorded slot reads",
+             text="(a) For every permutation of the input keyword order (solver-chosen) every label-addressed table of the real "
+                  "index is in label order and shows the same label sequence; run with the real HMAC so that sortedness cannot be "
+                  "an accident. (b) random.sample/choice/shuffle return solver-chosen well-formed results and SSE-1's PRP is a lazy "
+                  "permutation; the slots Search reads for every keyword must be exactly the ones the environment handed out, and a "
+                  "private generator seeded with < 64 bits is refused (confirmed natively by a birthday test).",
+             note="Trusted: ideal primitives in (b), os.urandom/random stubs in (a); recording list wrapper around the index arrays; "
+                  "the distribution of the real random source is outside (the replay compares slot sets of repeated setups).",
+             ref="3/C06"),
 }
 
 NOT_APPLICABLE = {
